@@ -265,7 +265,7 @@ func (it *Interp) zero(t types.Type) Value {
 			return FloatV(0)
 		case types.UnsafePointer:
 			return PtrV{}
-		case types.UntypedNil:
+		case types.UntypedNil, types.Invalid:
 			return nil
 		}
 		panic(it.bug("zero: basic kind %v", u))
